@@ -152,6 +152,10 @@ def finish(ctx, level, explanation, extra_cov=None):
             hit.setdefault(f["id"], []).append(v)
         else:
             unlisted.append(v)
+    if os.environ.get("VERIF_DUMP_ALL"):
+        # dev-time aid: every violation (listed or not) with its key and message
+        with open(os.environ["VERIF_DUMP_ALL"], "w") as fh:
+            json.dump([dict(v.to_json(), known=(kf_keys.get(v.full_key()) or {}).get("id")) for v in ctx.violations], fh, indent=1)
     vdir = os.path.join(EVIDENCE_DIR, "violations", ctx.prop)
     if os.path.isdir(vdir):
         shutil.rmtree(vdir)
